@@ -799,15 +799,20 @@ class CScript(bytes):
         """
         n = 0
         lastOpcode = OP_INVALIDOPCODE
-        for (opcode, data, sop_idx) in self.raw_iter():
-            if opcode in (OP_CHECKSIG, OP_CHECKSIGVERIFY):
-                n += 1
-            elif opcode in (OP_CHECKMULTISIG, OP_CHECKMULTISIGVERIFY):
-                if fAccurate and (OP_1 <= lastOpcode <= OP_16):
-                    n += opcode.decode_op_n()
-                else:
-                    n += 20
-            lastOpcode = opcode
+        try:
+            for (opcode, data, sop_idx) in self.raw_iter():
+                if opcode in (OP_CHECKSIG, OP_CHECKSIGVERIFY):
+                    n += 1
+                elif opcode in (OP_CHECKMULTISIG, OP_CHECKMULTISIGVERIFY):
+                    if fAccurate and (OP_1 <= lastOpcode <= OP_16):
+                        n += CScriptOp(lastOpcode).decode_op_n()
+                    else:
+                        n += 20
+                lastOpcode = opcode
+        except CScriptInvalidError:
+            # Malformed push: count up to it, as Bitcoin Core does
+            # (if (!GetOp(pc, opcode)) break;)
+            pass
         return n
 
 class CScriptWitness(ImmutableSerializable):
